@@ -1,10 +1,9 @@
 import JadeModel.Proofs.SystemLive3
-import JadeModel.Proofs.SystemLive4Defs
 import JadeModel.Proofs.SystemLiveStep5
 
-/-!
-Fault-free executions, part 5: a remaining blocker is never DONE (completed jobs are removed from the
+set_option linter.unusedSimpArgs false
+
+/-! Fault-free executions, part 5: a remaining blocker is never DONE (completed jobs are removed from the
 blocker lists in the pass that sees their rows), and a round that ends with an empty HPC queue leaves no
 unblocked NOT_SUBMITTED job.
-Definitions: `SystemLive4Defs`; step: `SystemLiveStep5`.
--/
+ -/
